@@ -274,3 +274,223 @@ Fixpoint sweeping (s : dspec) (fuel : nat) (last : option sdna) : list sdna :=
            | None => []
            end
   end.
+
+(* ---- random_dna over an abstract PRNG --------------------------------------------------------
+   The generator is a state [R] with the three methods the code calls.  What is assumed of them
+   (sample returns k distinct indices below n; randint stays below n; uniform stays in range) is
+   stated as hypotheses where the theorem needs them (Proofs/GenoRandom.v), not here. *)
+Fixpoint insert_sorted (x : nat) (l : list nat) : list nat :=
+  match l with [] => [x] | y :: r => if x <=? y then x :: l else y :: insert_sorted x r end.
+Definition isort (l : list nat) : list nat := fold_right insert_sorted [] l.
+Definition map_st {A X R} (f : A -> R -> X * R) : list A -> R -> list X * R :=
+  fix go l r := match l with
+                | [] => ([], r)
+                | a :: l' => let (x, r1) := f a r in let (xs, r2) := go l' r1 in (x :: xs, r2)
+                end.
+Section Random.
+  Variable R : Type.
+  Variable sample : nat -> nat -> R -> list nat * R.     (* random.sample(range(n), k) *)
+  Variable randint : nat -> R -> nat * R.                (* random.randint(0, n - 1) *)
+  Variable uniform : flt -> flt -> R -> flt * R.         (* random.uniform(lo, hi) *)
+  Fixpoint random_dna (s : dspec) (r : R) {struct s} : sdna * R :=
+    match s with Space es =>
+      let (ds, r') := map_st (fun e r0 => random_p e r0) es r in (SSpace ds, r') end
+  with random_p (p : dpoint) (r : R) {struct p} : pdna * R :=
+    match p with
+    | Choices k cands dist srt _ _ =>
+        let n := length cands in
+        let (choices, r1) := if dist then sample n k r
+                             else map_st (fun _ r0 => randint n r0) (seq 0 k) r in
+        let choices := if srt then isort choices else choices in
+        let (cs, r2) := map_st (fun c r0 =>
+                          let (sub, r') := with_nth (fun s => random_dna s) (fun r' => (SSpace [], r')) cands c r0
+                          in ((c, sub), r')) choices r1 in
+        (PChoices cs, r2)
+    | FloatP lo hi _ => let (f, r') := uniform lo hi r in (PFloat f, r')
+    | CustomP _ => (PCustom [], r)      (* random_dna_fn is user code; not modelled *)
+    end.
+End Random.
+
+(* ============================ CONCRETE LAYER ================================================== *)
+(* open findings the model stays faithful to (set by the harness from the witness replay) *)
+Record quirks := { q_float_bind_kids : bool      (* DNA.use_spec accepts children under a Float node *) }.
+Definition no_quirks (q : quirks) : Prop := q_float_bind_kids q = false.
+Definition q_none : quirks := {| q_float_bind_kids := false |}.
+
+Definition is_none (v : dval) : bool := match v with VNone => true | _ => false end.
+(* numeric value in 1/64ths, when the value is an int or a float *)
+Definition numv (v : dval) : option Z :=
+  match v with VInt z => Some (z * 64)%Z | VFlt f => Some f | _ => None end.
+(* Python == on DNA values *)
+Definition dval_eqb (a b : dval) : bool :=
+  match a, b with
+  | VNone, VNone => true
+  | VStr x, VStr y => str_eqb x y
+  | _, _ => match numv a, numv b with Some x, Some y => Z.eqb x y | _, _ => false end
+  end.
+(* len(set(values)) == len(values) *)
+Fixpoint dvals_distinct (l : list dval) : bool :=
+  match l with [] => true | x :: r => negb (existsb (dval_eqb x) r) && dvals_distinct r end.
+(* sorted(values) == values; None for the TypeError that comparing a str / None with anything raises
+   (it happens whenever there are at least two values and one of them is not a number) *)
+Fixpoint nums_sorted (l : list Z) : bool :=
+  match l with x :: ((y :: _) as r) => (x <=? y)%Z && nums_sorted r | _ => true end.
+Definition dvals_sorted (l : list dval) : option bool :=
+  match l with
+  | [] | [_] => Some true
+  | _ => match opt_all (map numv l) with
+         | Some zs => Some (nums_sorted zs)
+         | None => match opt_all (map (fun v => match v with VStr s => Some s | _ => None end) l) with
+                   | Some ss => Some ((fix srt (l : list str) := match l with
+                                        | x :: ((y :: _) as r) => (match str_cmp x y with Gt => false | _ => true end) && srt r
+                                        | _ => true end) ss)
+                   | None => None end
+         end
+  end.
+(* an int index 0 <= z < n, as nat *)
+Definition index_of (v : dval) (n : nat) : option nat :=
+  match v with VInt z => if (0 <=? z)%Z && (z <? Z.of_nat n)%Z then Some (Z.to_nat z) else None | _ => None end.
+
+(* ---- Space.validate / Choices.validate / Float.validate / CustomDecisionPoint.validate ---------- *)
+Fixpoint validate (s : dspec) (d : dna) {struct s} : bool :=
+  match s with Space es =>
+    match es with
+    | [] => is_none (dvalue d) && (length (dkids d) =? 0)
+    | [e] => validate_p e d
+    | _ => (length (dkids d) =? length es) && is_none (dvalue d) &&
+           forallb2 (fun e c => validate_p e c) es (dkids d)
+    end end
+with validate_p (p : dpoint) (d : dna) {struct p} : bool :=
+  match p with
+  | Choices k cands dist srt _ _ =>
+      let n := length cands in
+      if k =? 1 then
+        match index_of (dvalue d) n with
+        | None => false
+        | Some c =>
+            with_nth (fun chosen =>
+              let const := (length (elements chosen) =? 0) in
+              let nokids := (length (dkids d) =? 0) in
+              (if const then nokids else negb nokids) && validate chosen (mk VNone (dkids d)))
+              false cands c
+        end
+      else
+        (length (dkids d) =? k) && is_none (dvalue d) &&
+        (let vals := map dvalue (dkids d) in
+         (negb dist || dvals_distinct vals) &&
+         (negb srt || match dvals_sorted vals with Some b => b | None => false end)) &&
+        forallb (fun sub => match index_of (dvalue sub) n with
+                            | None => false
+                            | Some c => with_nth (fun chosen => validate chosen (mk VNone (dkids sub))) false cands c
+                            end) (dkids d)
+  | FloatP lo hi _ =>
+      match dvalue d with
+      | VFlt f => (lo <=? f)%Z && (f <=? hi)%Z && (length (dkids d) =? 0)
+      | _ => false end
+  | CustomP _ => match dvalue d with VStr _ => true | _ => false end
+  end.
+
+(* ---- DNA.use_spec: binding, recording which specification node each DNA node is bound to --------
+   A specification node is named by its address: the root Space is []; element i of the Space at a
+   is a ++ [i]; candidate j of a single choice at a is a ++ [j]; sub-choice i of a multi-choice at a
+   is a ++ [i] (itself a single choice over the same candidates). *)
+Definition addr := list nat.
+Inductive bdna := B (v : dval) (sp : option addr) (cs : list bdna).
+Fixpoint strip (b : bdna) : dna := match b with B v _ cs => D v (map strip cs) end.
+Fixpoint unbound (d : dna) : bdna := match d with D v cs => B v None (map unbound cs) end.
+Definition bvalue (b : bdna) : dval := match b with B v _ _ => v end.
+Definition bkids (b : bdna) : list bdna := match b with B _ _ cs => cs end.
+Definition bspec (b : bdna) : option addr := match b with B _ sp _ => sp end.
+
+(* bind the i-th item of [ds] with [f i]; all must succeed; lengths must agree *)
+Definition bind_all {A} (f : nat -> A -> dna -> option bdna) : nat -> list A -> list dna -> option (list bdna) :=
+  fix go i es ds :=
+    match es, ds with
+    | [], [] => Some []
+    | e :: es', d :: ds' =>
+        match f i e d, go (S i) es' ds' with Some b, Some bs => Some (b :: bs) | _, _ => None end
+    | _, _ => None
+    end.
+
+Section Bind.
+  Variable q : quirks.
+  (* [bind_kids s a kids]: the children of a node whose chosen candidate is the Space [s] at [a] *)
+  Fixpoint bind_kids (s : dspec) (a : addr) (kids : list dna) {struct s} : option (list bdna) :=
+    match s with Space es =>
+      match es with
+      | [e] =>
+          let multi := match e with Choices k _ _ _ _ _ => negb (k =? 1) | _ => false end in
+          if multi then option_map bkids (bind_p e (a ++ [0]) (D VNone kids))
+          else match kids with
+               | [kid] => option_map (fun b => [b]) (bind_p e (a ++ [0]) kid)
+               | _ => None end
+      | _ => bind_all (fun i e d => bind_p e (a ++ [i]) d) 0 es kids
+      end end
+  with bind_p (p : dpoint) (a : addr) (d : dna) {struct p} : option bdna :=
+    match p with
+    | Choices k cands dist srt _ _ =>
+        let n := length cands in
+        let single := fun (a' : addr) (d' : dna) =>
+          match index_of (dvalue d') n with
+          | None => None
+          | Some c =>
+              match with_nth (fun chosen => bind_kids chosen (a' ++ [c]) (dkids d')) None cands c with
+              | Some ks => Some (B (dvalue d') (Some a') ks)
+              | None => None end
+          end in
+        if k =? 1 then single a d
+        else if negb (is_none (dvalue d)) then None
+        else match bind_all (fun i (_ : nat) d' => single (a ++ [i]) d') 0 (seq 0 k) (dkids d) with
+             | None => None
+             | Some ks =>
+                 let vals := map dvalue (dkids d) in
+                 if (negb srt || match dvals_sorted vals with Some b => b | None => false end) &&
+                    (negb dist || dvals_distinct vals)
+                 then Some (B VNone (Some a) ks) else None
+             end
+    | FloatP lo hi _ =>
+        match dvalue d with
+        | VFlt f => if (lo <=? f)%Z && (f <=? hi)%Z && (q_float_bind_kids q || (length (dkids d) =? 0))
+                    then Some (B (VFlt f) (Some a) (map unbound (dkids d))) else None
+        | _ => None end
+    | CustomP _ =>
+        match dvalue d with VStr s => Some (B (VStr s) (Some a) (map unbound (dkids d))) | _ => None end
+    end.
+  (* use_spec on the root *)
+  Definition bind (s : dspec) (d : dna) : option bdna :=
+    match s with Space es =>
+      match es with
+      | [e] => bind_p e [0] d
+      | _ => if is_none (dvalue d)
+             then option_map (B VNone (Some [])) (bind_all (fun i e c => bind_p e [i] c) 0 es (dkids d))
+             else None
+      end end.
+  (* every node is bound to the decision point of its own position *)
+  Definition aligned (s : dspec) (b : bdna) : Prop := bind s (strip b) = Some b.
+End Bind.
+
+(* ---- DNA.__cmp__ ------------------------------------------------------------------------------ *)
+Definition val_cmp (x y : dval) : comparison :=
+  if dval_eqb x y then Eq else
+  match x, y with
+  | VNone, _ => Lt
+  | _, VNone => Gt
+  | VStr a, VStr b => str_cmp a b
+  | _, VStr _ => Lt
+  | VStr _, _ => Gt
+  | _, _ => match numv x, numv y with Some a, Some b => Z.compare a b | _, _ => Eq end
+  end.
+(* None = ValueError (different number of children) *)
+Fixpoint dna_cmp (a b : dna) {struct a} : option comparison :=
+  match a, b with D va ca, D vb cb =>
+    match val_cmp va vb with
+    | Eq =>
+        if negb (length ca =? length cb) then None else
+        (fix go (ca cb : list dna) : option comparison :=
+           match ca, cb with
+           | x :: ca', y :: cb' => match dna_cmp x y with Some Eq => go ca' cb' | r => r end
+           | _, _ => Some Eq
+           end) ca cb
+    | c => Some c
+    end end.
+Definition dna_lt (a b : dna) : Prop := dna_cmp a b = Some Lt.
